@@ -332,6 +332,7 @@ fn decode(t: &mut Tape) -> Case {
         // few widths, so that the two uses of the punned name meet in extensions / truncations
         p.widths = vec![8, 16, 32, 64];
     }
+    p.index_gaps_permille = 200;
     let g = gen_fn(t, &p);
     let mut spec = g.spec;
     let mut pool = g.pool;
